@@ -128,7 +128,7 @@ func (s *vC35Sim) write() error {
 		} else {
 			s.r.Count("occupied_position_refused_by_error", 1)
 		}
-		s.r.Nontrivial(fmt.Sprintf("occupied|%d|%d", s.idx, len(s.model))+"|"+snap.PayloadHash().String())
+		s.r.Nontrivial(fmt.Sprintf("occupied|%d|%d", s.idx, len(s.model)) + "|" + snap.PayloadHash().String())
 		// the store must be unchanged: checked by the queries that follow and here
 		s.checkLast("after-refused-write")
 		s.checkLookup(occupied, "after-refused-write")
